@@ -116,11 +116,50 @@ class SemanticErrorChecker:
             ):
                 valid = False
 
+        if not self.check_for_recursive_task_calls():
+            valid = False
+
         if not start_task_found:
             error_msg = f"The file contains no '{self.process.start_task_name}' (Starting Point)"
             self.error_handler.print_error(error_msg, line=1, column=0, off_symbol_length=5)
             return False
 
+        return valid
+
+    def check_for_recursive_task_calls(self) -> bool:
+        """Checks that no Task calls itself, neither directly nor via other Tasks.
+
+        Returns:
+            True if the call graph of the Tasks contains no cycle.
+        """
+
+        def called_task_names(statements: List) -> List[str]:
+            names = []
+            for statement in statements:
+                if isinstance(statement, TaskCall):
+                    names.append(statement.name)
+                elif isinstance(statement, Parallel):
+                    names.extend(task_call.name for task_call in statement.task_calls)
+                elif isinstance(statement, Condition):
+                    names.extend(called_task_names(statement.passed_stmts))
+                    names.extend(called_task_names(statement.failed_stmts))
+                elif isinstance(statement, (CountingLoop, WhileLoop)):
+                    names.extend(called_task_names(statement.statements))
+            return names
+
+        def reaches(name: str, target: str, visited: set) -> bool:
+            if name not in self.tasks or name in visited:
+                return False
+            visited.add(name)
+            callees = called_task_names(self.tasks[name].statements)
+            return target in callees or any(reaches(c, target, visited) for c in callees)
+
+        valid = True
+        for task in self.tasks.values():
+            if reaches(task.name, task.name, set()):
+                error_msg = f"Task '{task.name}' calls itself recursively"
+                self.error_handler.print_error(error_msg, context=task.context)
+                valid = False
         return valid
 
     def check_statements(self, task: Task) -> bool:
